@@ -1086,3 +1086,128 @@ mod tests {
         assert!(extract_next_batch(&mut blocks_deque, max_size).is_none());
     }
 }
+
+/// Verification wrappers around the private Bitswap helpers (`--cfg litep2p_verif` only).
+#[cfg(litep2p_verif)]
+pub mod verif {
+    use super::*;
+    use crate::{
+        addresses::PublicAddresses,
+        protocol::{ProtocolName, SubstreamKeepAlive},
+        transport::{
+            manager::{handle::InnerTransportManagerCommand, TransportManagerHandle},
+            KEEP_ALIVE_TIMEOUT,
+        },
+    };
+    use parking_lot::RwLock;
+    use std::sync::{atomic::AtomicUsize, Arc};
+
+    /// Transport-level message limit of the protocol.
+    pub const MAX_MESSAGE_SIZE: usize = config::MAX_MESSAGE_SIZE;
+    /// Application-level limit for the combined block payload of one message.
+    pub const MAX_BATCH_SIZE: usize = config::MAX_BATCH_SIZE;
+
+    /// `block_to_response` on a wire block given as `(prefix, data)`.
+    pub fn block_to_response(peer: &PeerId, prefix: Vec<u8>, data: Vec<u8>) -> Option<ResponseType> {
+        super::block_to_response(peer, schema::bitswap::Block { prefix, data })
+    }
+
+    /// `Prefix::from_bytes` as `(version, codec, multihash_type, multihash_len)`.
+    pub fn prefix_from_bytes(bytes: &[u8]) -> Option<(u64, u64, u64, u8)> {
+        Prefix::from_bytes(bytes)
+            .map(|p| (p.version.into(), p.codec, p.multihash_type, p.multihash_len))
+    }
+
+    /// `Prefix::to_bytes` of the prefix `blocks_message` derives from `cid`.
+    pub fn prefix_of(cid: &Cid) -> Vec<u8> {
+        Prefix {
+            version: cid.version(),
+            codec: cid.codec(),
+            multihash_type: cid.hash().code(),
+            multihash_len: cid.hash().size(),
+        }
+        .to_bytes()
+    }
+
+    /// `blocks_message`.
+    pub fn blocks_message(blocks: Vec<(Cid, Vec<u8>)>) -> Option<(Bytes, usize)> {
+        super::blocks_message(blocks)
+    }
+
+    /// `presences_message`.
+    pub fn presences_message(presences: Vec<(Cid, BlockPresenceType)>) -> Option<(Bytes, usize)> {
+        super::presences_message(presences)
+    }
+
+    /// `extract_next_batch`, with the drained batch collected.
+    pub fn extract_next_batch(
+        blocks: &mut VecDeque<(Cid, Vec<u8>)>,
+        max_batch_size: usize,
+    ) -> Option<Vec<(Cid, Vec<u8>)>> {
+        super::extract_next_batch(blocks, max_batch_size).map(|batch| batch.collect())
+    }
+
+    /// `send_response` over a given substream.
+    pub async fn send_response(
+        substream: &mut Substream,
+        entries: Vec<ResponseType>,
+    ) -> Result<(), String> {
+        super::send_response(substream, entries).await.map_err(|error| format!("{error:?}"))
+    }
+
+    /// `send_request` over a given substream.
+    pub async fn send_request(
+        substream: &mut Substream,
+        cids: Vec<(Cid, WantType)>,
+    ) -> Result<(), String> {
+        super::send_request(substream, cids).await.map_err(|error| format!("{error:?}"))
+    }
+
+    /// A real [`Bitswap`] instance without a network, to feed inbound messages to.
+    pub struct BitswapHarness {
+        bitswap: Bitswap,
+        _cmd_rx: tokio::sync::mpsc::Receiver<InnerTransportManagerCommand>,
+    }
+
+    impl BitswapHarness {
+        /// Create the protocol instance and the user-facing handle.
+        pub fn new() -> (Self, BitswapHandle) {
+            let local_peer = PeerId::random();
+            let (cmd_tx, _cmd_rx) = tokio::sync::mpsc::channel(64);
+            let handle = TransportManagerHandle::new(
+                local_peer,
+                Arc::new(RwLock::new(HashMap::new())),
+                cmd_tx,
+                HashSet::new(),
+                Default::default(),
+                PublicAddresses::new(local_peer),
+            );
+            let (service, _) = TransportService::new(
+                local_peer,
+                ProtocolName::from(config::PROTOCOL_NAME),
+                Vec::new(),
+                Arc::new(AtomicUsize::new(0usize)),
+                handle,
+                KEEP_ALIVE_TIMEOUT,
+                SubstreamKeepAlive::No,
+            );
+            let (config, handle) = Config::new();
+
+            (
+                Self {
+                    bitswap: Bitswap::new(service, config),
+                    _cmd_rx,
+                },
+                handle,
+            )
+        }
+
+        /// `Bitswap::on_message_received`.
+        pub async fn on_message_received(&mut self, peer: PeerId, message: &[u8]) -> Result<(), String> {
+            self.bitswap
+                .on_message_received(peer, bytes::BytesMut::from(message))
+                .await
+                .map_err(|error| format!("{error:?}"))
+        }
+    }
+}
